@@ -255,6 +255,25 @@ def badSupplied : List Param → List Val → List (Nat × Val) → Bool
      | some v => !p.unit.ok v
      | none => false) || badSupplied vs pos.tail kw
 
+/-! ### the generated constructor of a struct wrapped as a class (`PY_struct_arg: class`) -/
+
+/-- `parse_format` of a `struct_as_class_ctor`: `|` is added before the first field, every field is optional. -/
+def structFmt (fs : List Param) : List FmtItem :=
+  match fs with
+  | [] => []
+  | _ => .bar :: fs.map (fun p => .unit p.unit)
+
+def structField : Option Val → ArgV
+  | some v => .val v
+  | none => .dflt          -- the C variable is declared with an initial value (`int x = 0;`)
+
+/-- the generated `tp_init`: parse, `new`, then `SH_obj->field = field;` for every field; there is no
+argument-count switch, an unsupplied field keeps the initial value of its variable. -/
+def structCtor (fs : List Param) (pos : List Val) (kw : Option (List (Nat × Val))) : Outcome :=
+  match parseArgs (structFmt fs) (fs.map (·.name)) pos (kw.getD []) with
+  | .error e => .exc e
+  | .ok slots => .ok (slots.map structField)
+
 /-! ### overload dispatch -/
 
 /-- the arity window tested by `multi_dispatch` (Python-visible arguments; a range only when
